@@ -101,3 +101,21 @@ Theorem C03_header_found_from_any_item :
   forall hs isz ki base i : Z, meta_raw hs isz ki (base + item_off hs isz ki i) i = base.
 Proof. intros hs isz ki base i. exact (meta_raw_correct hs isz 0 ki base i). Qed.
 Print Assumptions C03_header_found_from_any_item.
+
+(** (b) the count protocol under any interleaving of atomic steps of any number of owners on
+    any threads (clone = fetch_add creating a new owner, use = an access, drop = fetch_sub; the
+    owner that reads 1 releases): counter = live owners, released iff none is left, released at
+    most once, no step ever touches a released block - for every schedule *)
+From FB Require Import ConcRefcount.
+
+Theorem C03_every_interleaving_of_owners :
+  forall sched : list (nat * action), rc_inv (run rc_init sched).
+Proof. exact every_interleaving. Qed.
+Print Assumptions C03_every_interleaving_of_owners.
+
+Theorem C03_released_by_the_last_drop_only :
+  forall (s : rc) (i : nat) (a : action),
+  rc_inv s -> released s = false -> released (step s i a) = true ->
+  a = Drop /\ live_at s i = true /\ live_count (owners s) = 1%nat.
+Proof. exact released_by_the_last_drop. Qed.
+Print Assumptions C03_released_by_the_last_drop_only.
